@@ -39,6 +39,12 @@ func (x *Exec) step(st *State, fi int, instr ssa.Instruction, from *ssa.BasicBlo
 			x.setReg(st, fi, in, Value{T: r, Typ: in.Type()})
 			return
 		}
+		if in.Heap && isStructVal(et) && x.isOpaqueStruct(et) {
+			// heap object of a library struct type (sync.WaitGroup, ...): an opaque fresh reference
+			r := x.freshRef(st, in.Comment+"."+x.typeName(et))
+			x.setReg(st, fi, in, Value{T: r, Typ: in.Type()})
+			return
+		}
 		if isArr {
 			r := x.freshRef(st, "array")
 			at := et.Underlying().(*types.Array)
